@@ -450,6 +450,8 @@ func init() {
 			Combined int64
 			N        int
 			OwnDir   bool
+			// Main > 0: the main logger writes that many messages of its own between the secondary's
+			Main int
 		}
 		if err := json.Unmarshal(raw, &a); err != nil {
 			return nil, err
@@ -474,6 +476,9 @@ func init() {
 				l := log.NewSecondaryLogger(ctx, dn, "sec", true /*enableGc*/, false /*forceSyncWrites*/)
 				for i := 0; i < a.N; i++ {
 					l.Logf(ctx, "secondary message %04d %s", i, strings.Repeat("x", 60))
+					if i < a.Main {
+						log.Infof(ctx, "main message %04d %s", i, strings.Repeat("y", 60))
+					}
 					log.Flush()
 				}
 				settle(where, 50*time.Millisecond, 3*time.Second)
@@ -491,7 +496,19 @@ func init() {
 					}
 				}
 				sort.Slice(files, func(i, j int) bool { return files[i].Name > files[j].Name })
-				return map[string]interface{}{"files": files}, nil
+				// what the MAIN logger reads back: its own messages only
+				foreign, own := 0, 0
+				if ents, err := log.FetchEntriesFromFiles(0, math.MaxInt64, math.MaxInt32, nil); err == nil {
+					for _, e := range ents {
+						if strings.Contains(e.Message, "secondary message") {
+							foreign++
+						}
+						if strings.Contains(e.Message, "main message") {
+							own++
+						}
+					}
+				}
+				return map[string]interface{}{"files": files, "foreignInMain": foreign, "mainRead": own}, nil
 			})
 		})
 	})
